@@ -9,7 +9,8 @@ visible: each clause that excludes something the statement does not exclude is b
 -/
 namespace Iface
 
-def renamedTyps : List String := ["Str", "Constant", "NameConstant", "Num"]
+/-- type names that `param2ast` / `_infer_default` rewrite (AST class names) -/
+def renamedTyps : List String := ["Str", "Constant", "NameConstant", "Num", "UnaryOp"]
 
 /-- names: distinct, not `return_type`, no `*`/`**kwargs` forms, not the receiver names the function parser strips -/
 def okName (n : String) : Bool :=
@@ -82,7 +83,7 @@ def inD02Class (ir : IR) : Bool :=
 /-- the source of a return value that the function emitter/parser pair reproduces: a bare name, or a code-quoted
     non-tuple, non-constant expression in canonical (`ast.unparse`) form -/
 def retCanonFn (env : Env) (s : String) : Bool :=
-  !quotedLike s &&
+  !quotedLike s && !s.toList.isEmpty && s != "None" && s != NoneStr &&
   (match env.pyExpr (stripTicks s) with
    | some (.name id) => id == s
    | some (.code src false) => s == "```" ++ src ++ "```" && codeQuoted s && s != NoneStr
